@@ -35,6 +35,11 @@ CLAIMED = {
    text='C08_prefix_unusable / C08_complete_when_usable / C08_next_run_equal hold for every number of resources and rows and any non-empty temporary suffix (read live). The effect list of the model is compared with the intercepted file operations of the real writer; the real child is killed (SIGKILL) before every operation and an exception is injected at every row, and after each the next run must recompute and return the uninterrupted result.',
    note='rename(2) atomic; process death, not power loss; Python-level interception of open/write/flush/close/rename in a child process (strace not needed)',
    ref='6/C08'),
+ 'C09': dict(
+   technique='Lean 4 proof (dotted-path setters/getters are inverse; package totals are the sums; per-resource counters are those of its file; disabled counters leave nothing) + dumpstats correspondence + off-disk oracle',
+   text='C09_get_set / C09_get_inc / C09_set_other hold for every descriptor tree and dotted name; C09_totals and C09_resource for every list of resources and counter naming with distinct top-level names. On the real code, every dump (csv/json, path/zip, renamed / dotted / disabled counters, add_filehash_to_path, pretty_descriptor) is checked against the size, md5 and row count read off the written files, totals against sums, returned stats against the written descriptor, and dumped twice for determinism.',
+   note='md5 is uninterpreted; text-mode tell() and the csv/json decoders used to count rows are CPython; stats bytes vs descriptor bytes is a listed finding',
+   ref='6/C09'),
  'C10': dict(
    technique='Lean 4 proof (matcher = specification for every regex oracle; frame theorem for every mapSel processor) + step correspondence + frame oracle on real code',
    text='Theorems C10_matcher_spec / C10_frame_* hold for all packages, selectors and regex oracles; the model is tied to the code by the step correspondence (real processor vs compiled model on generated packages) and the frame property is re-checked on the real output of every selector-taking processor.',
